@@ -180,3 +180,118 @@ Example C17_example_strand :
   strand_pop_counts true [Fin (1 # 4); Fin (1 # 2); Fin (3 # 4)] (Fin 1000) (Fin (1 # 2)) [false; true; true]
   = Some [Fin (1 * 1000 * (1 # 2)); NaN; NaN].
 Proof. split; reflexivity. Qed.
+
+(* ==================================================================================== *)
+(** * END TO END: population counts of a tabulated survey
+      (Proofs/ComposeBase.v, ComposeProportions.v, ComposeVariance.v, ComposePopulation.v)
+
+   Above, the proportion and standard-error matrices are free.  Below the whole pipeline runs on
+   one survey S (Spec/Survey.v): [s_pop_counts S tv vr kr mr vc kc mc k rsubs csubs dn rd cd rcd ccd
+   N f dr dc] is [pop_counts] applied to the base blocks of the row / column / table proportions
+   the model computes from [tabulate S] for partition k of a categorical / multiple-response x
+   categorical / multiple-response cube (2-D: tv = None).  [rcd] / [ccd]: the rows / columns
+   dimension is categorical-date.  [w_cell], [w_rowbase], [w_colbase], [w_tabbase] are the weighted
+   respondent counts of Props/C03.v::C03_survey_numbers. *)
+From CC Require Import Spec.Survey Model.CubeCounts Model.Subtotals Model.Variance Proofs.CubeCountsProofs
+     Proofs.VarianceProofs Proofs.ComposeBase Proofs.ComposeProportions Proofs.ComposeVariance
+     Proofs.ComposePopulation Model.Population.   (* Population last: its Z975 stays the visible one *)
+Local Close Scope Q_scope.   (* Proofs/VarianceProofs.v opens it; this file indexes with nat *)
+
+(* population count of base cell (i, j) that is not a subtotal difference:
+   w(row i and column j) / B * N * f, B = the base picked by the categorical-date position;
+   NaN exactly when B = 0; never infinite *)
+Theorem C17_survey_population_counts S tv vr kr mr vc kc mc k rsubs csubs dn rd cd rcd ccd n f dr dc i j :
+  t_ok tv -> cat_or_mr kr -> cat_or_mr kc -> k < t_n tv -> wf_survey S ->
+  i < nval mr -> j < nval mc -> nth i dr false = false -> nth j dc false = false ->
+  let c := w_cell tv k vr kr mr vc kc mc S i j in
+  let B := pop_choice rcd ccd (w_rowbase tv k vr kr mr vc kc mc S i j)
+                              (w_colbase tv k vr kr mr vc kc mc S i j)
+                              (w_tabbase tv k vr kr mr vc kc mc S i j) in
+  match mnth (s_pop_counts S tv vr kr mr vc kc mc k rsubs csubs dn rd cd rcd ccd (Fin n) (Fin f) dr dc) i j with
+  | NaN => (B == 0)%Q
+  | Fin v => ~ (B == 0)%Q /\ (v == c / B * n * f)%Q
+  | Inf _ => False
+  end.
+Proof.
+  exact (fun Ht Hr Hc Hk Hwf =>
+    population_counts_survey S tv vr kr mr vc kc mc k rsubs csubs dn rd cd rcd ccd Ht Hr Hc Hk Hwf n f dr dc i j).
+Qed.
+Print Assumptions C17_survey_population_counts.
+
+(* the dispatch, spelled out: rows categorical-date => within each date (row base), else columns
+   categorical-date => column base, else the table base *)
+Theorem C17_survey_dispatch (r c t : Q) :
+  (forall ccd, pop_choice true ccd r c t = r) /\ pop_choice false true r c t = c /\
+  pop_choice false false r c t = t.
+Proof. exact (conj (fun ccd => eq_refl) (conj eq_refl eq_refl)). Qed.
+Print Assumptions C17_survey_dispatch.
+
+Theorem C17_survey_difference_is_nan S tv vr kr mr vc kc mc k rsubs csubs dn rd cd rcd ccd N f dr dc i j :
+  i < nval mr -> j < nval mc -> nth i dr false || nth j dc false = true ->
+  mnth (s_pop_counts S tv vr kr mr vc kc mc k rsubs csubs dn rd cd rcd ccd N f dr dc) i j = NaN.
+Proof. exact (population_counts_difference S tv vr kr mr vc kc mc k rsubs csubs dn rd cd rcd ccd N f dr dc i j). Qed.
+Print Assumptions C17_survey_difference_is_nan.
+
+(* margin of error: for ANY se whose square is the model's squared standard error of the picked
+   direction (np.sqrt is not modelled), MoE^2 = 1.959964^2 (N f)^2 * indicator variance / B *)
+Theorem C17_survey_moe_sq S tv vr kr mr vc kc mc k rsubs csubs dn rd cd rcd ccd se n f i j :
+  t_ok tv -> cat_or_mr kr -> cat_or_mr kc -> k < t_n tv -> wf_survey S ->
+  i < nval mr -> j < nval mc ->
+  xsq se =x= s_chosen_stderr_sq S tv vr kr mr vc kc mc k rsubs csubs dn rd cd rcd ccd i j ->
+  let B := pop_choice rcd ccd (w_rowbase tv k vr kr mr vc kc mc S i j)
+                              (w_colbase tv k vr kr mr vc kc mc S i j)
+                              (w_tabbase tv k vr kr mr vc kc mc S i j) in
+  match xsq (moe_cell se (Fin n) (Fin f)) with
+  | NaN => (B == 0)%Q
+  | Fin m => ~ (B == 0)%Q /\
+             (m == (1959964 # 1000000) * (1959964 # 1000000) * ((n * f) * (n * f))
+                   * (spec_var (chosen_marks S tv vr kr mr vc kc mc k rcd ccd i j) / B))%Q
+  | Inf _ => False
+  end.
+Proof.
+  exact (fun Ht Hr Hc Hk Hwf =>
+    population_moe_sq_survey S tv vr kr mr vc kc mc k rsubs csubs dn rd cd rcd ccd Ht Hr Hc Hk Hwf se n f i j).
+Qed.
+Print Assumptions C17_survey_moe_sq.
+
+Theorem C17_survey_chosen_direction S tv vr kr mr vc kc mc k rsubs csubs dn rd cd rcd ccd i j :
+  s_chosen_stderr_sq S tv vr kr mr vc kc mc k rsubs csubs dn rd cd rcd ccd i j =
+    pop_choice rcd ccd
+      (stderr_sq (mnth (b_base (s_row_var S tv vr kr mr vc kc mc k rsubs csubs dn rd cd)) i j)
+                 (mnth (b_base (s_row_bases S tv vr kr mr vc kc mc k rsubs csubs)) i j))
+      (stderr_sq (mnth (b_base (s_col_var S tv vr kr mr vc kc mc k rsubs csubs dn rd cd)) i j)
+                 (mnth (b_base (s_col_bases S tv vr kr mr vc kc mc k rsubs csubs)) i j))
+      (stderr_sq (mnth (b_base (s_tab_var S tv vr kr mr vc kc mc k rsubs csubs dn)) i j)
+                 (mnth (b_base (s_tab_bases S tv vr kr mr vc kc mc k rsubs csubs)) i j)) /\
+  chosen_marks S tv vr kr mr vc kc mc k rcd ccd i j =
+    pop_choice rcd ccd
+      (marks S (rowbase_in tv k vr kr mr vc kc mc i j) (cell_in tv k vr kr mr vc kc mc i j))
+      (marks S (colbase_in tv k vr kr mr vc kc mc i j) (cell_in tv k vr kr mr vc kc mc i j))
+      (marks S (tabbase_in tv k vr kr mr vc kc mc i j) (cell_in tv k vr kr mr vc kc mc i j)).
+Proof. exact (conj eq_refl eq_refl). Qed.
+Print Assumptions C17_survey_chosen_direction.
+
+(* Non-vacuity.  Five respondents with rational weights; rows categorical (a MISSING category in
+   the middle, one valid category nobody chose), columns categorical; N = 1000, f = 1/2.
+   Table proportion of cell (1, 1) = 9/4 / 19/4 = 9/19; within the row (rows categorical-date): 1;
+   the empty row has no estimate *)
+Example C17_survey_example :
+  let S := [ mkResp [ACat 0; ACat 0] (3 # 2); mkResp [ACat 2; ACat 1] 2; mkResp [ACat 1; ACat 0] 5;
+             mkResp [ACat 2; ACat 1] (1 # 4); mkResp [ACat 0; ACat 1] 1 ] in
+  let mr := [false; true; false; false] in
+  let mc := [false; false] in
+  t_ok None /\ cat_or_mr KCat /\ 0 < t_n None /\ wf_survey S /\ nval mr = 3 /\ nval mc = 2 /\
+  map (map xred) (s_pop_counts S None 0 KCat mr 1 KCat mc 0 [] [] false false false false false
+                               (Fin 1000) (Fin (1 # 2)) [] [])
+    = [[Fin (3000 # 19); Fin (2000 # 19)]; [Fin 0; Fin (4500 # 19)]; [Fin 0; Fin 0]] /\
+  map (map xred) (s_pop_counts S None 0 KCat mr 1 KCat mc 0 [] [] false false false true false
+                               (Fin 1000) (Fin (1 # 2)) [] [])
+    = [[Fin 300; Fin 200]; [Fin 0; Fin 500]; [NaN; NaN]] /\
+  (w_cell None 0 0 KCat mr 1 KCat mc S 1 1 / w_tabbase None 0 0 KCat mr 1 KCat mc S 1 1 * 1000 * (1 # 2)
+   == 4500 # 19)%Q /\
+  ~ (w_tabbase None 0 0 KCat mr 1 KCat mc S 1 1 == 0)%Q /\
+  (w_rowbase None 0 0 KCat mr 1 KCat mc S 2 0 == 0)%Q.
+Proof.
+  cbv zeta. repeat split; try (left; reflexivity); try lia; try (repeat constructor; discriminate);
+    try (vm_compute; reflexivity); try (vm_compute; discriminate).
+Qed.
